@@ -337,9 +337,19 @@ func execRSA(p *Plan, run *core.Run) {
 	pub := &key.PublicKey
 	msg := core.NewPRNG(p.Seed + 3).Bytes(40)
 	var padder tssrsa.Padder = &tssrsa.PKCS1v15Padder{}
-	pssOpts := &rsa.PSSOptions{SaltLength: rsa.PSSSaltLengthEqualsHash, Hash: crypto.SHA256}
+	pssOpts := &rsa.PSSOptions{SaltLength: rsa.PSSSaltLengthEqualsHash, Hash: crypto.SHA256} // the verifier's own options
 	if p.PSS {
-		padder = &tssrsa.PSSPadder{Rand: core.NewStream(p.Seed + 4), Opts: pssOpts}
+		// the padder gets options of its own: what the library does with them must not reach the verifier
+		padder = &tssrsa.PSSPadder{Rand: core.NewStream(p.Seed + 4), Opts: &rsa.PSSOptions{SaltLength: rsa.PSSSaltLengthEqualsHash}}
+	}
+	if p.Seed%3 == 0 {
+		// history: the padder object already padded a message for another hash and a larger key
+		big := fixtures.RSAKey("std-2048-a")
+		if _, err := tssrsa.PadHash(padder, crypto.SHA512, &big.PublicKey, []byte("an earlier signing session")); err != nil {
+			run.Violate(comp+".PadHash", "error", "earlier session: %v", err)
+			return
+		}
+		run.Fault("history:padder-object-used-before")
 	}
 	msgPH, err := tssrsa.PadHash(padder, crypto.SHA256, pub, msg)
 	if err != nil {
